@@ -81,8 +81,8 @@ _TMPROOT = None
 def _tmpdir():
     global _TMPROOT
     if _TMPROOT is None or not os.path.isdir(_TMPROOT):
-        _TMPROOT = tempfile.mkdtemp(prefix="cnfgen-verif-c20.",
-                                    dir="/dev/shm")
+        from detsim.runner import scratch_dir
+        _TMPROOT = scratch_dir("c20.")
         import atexit
         import shutil
         atexit.register(shutil.rmtree, _TMPROOT, True)
